@@ -244,15 +244,21 @@ inductive OptVal where
   | int (i : Int)
   | other
 
-/-- one `(key, value)` pair of `.dOpt`; `ok none` = the call stops with a warning.  A non-`int` precision
-    raises: `self.warn("bad application","precision",val)` has one argument too few for its message
-    (Constituent.py:211, `TypeError` inside `warning`). -/
+/-- one `(key, value)` pair of `.dOpt`; `ok none` = the call stops with one warning.
+    Repaired code (`fixMPrecisionChecked`, Constituent.py:226): the precision must be an `int`, not a `bool`, and
+    `>= 0`; anything else is one warning and the call stops, the stored precision is unchanged.
+    Earlier code: any `int` (a `bool` too) was stored, and a non-`int` raised `TypeError` inside the warning. -/
 def setDOpt1 (d : DOpt) (key : Str) (v : OptVal) : Except Crash (Option DOpt) :=
   if key = s "mprecision" then
-    match v with
-    | .int i => pure (some { d with mprecision := some i })
-    | .bool _ => pure (some { d with mprecision := some (-1) })   -- `bool` is an `int`: stored; `"{:,.Truef}"` is then as invalid as `"{:,.-1f}"`
-    | .other => .error .typeError
+    if fixMPrecisionChecked then
+      match v with
+      | .int i => if 0 ≤ i then pure (some { d with mprecision := some i }) else pure none
+      | _ => pure none
+    else
+      match v with
+      | .int i => pure (some { d with mprecision := some i })
+      | .bool _ => pure (some { d with mprecision := some (-1) })   -- stored; `"{:,.Truef}"` is as invalid as `"{:,.-1f}"`
+      | .other => .error .typeError
   else if key = s "raw" ∨ key = s "nat" ∨ key = s "ord" ∨ key = s "rom" then
     match v with
     | .bool b =>
